@@ -16,6 +16,7 @@ MODULES = {
     "C06": "harness.rewrite",
     "C08": "harness.rewrite",
     "C09": "harness.rewrite",
+    "C10": "harness.intervals",
     "C11": "harness.rewrite",
     "C14": "harness.dwarf",
     "C15": "harness.cfi_eval",
